@@ -134,3 +134,39 @@ package threshold
 //@   props C10 C06
 //@   requires s != nil && signingProtocol != nil
 //@   requires typeIs(m, "*rbcMsg") && dyn(m, "*rbcMsg") != nil
+
+// ---- who takes part in a session's broadcast instance (C02, C03, C12) ------------------------------------------------
+
+//@ func universalIDsToUintMap
+//@   props C02 C03 C12
+//@   modifies nothing
+//@   ensures [keys] result != nil && keys(result) == elems(in, len(in))
+//@   loop 0: invariant res != nil && -1 <= rangeindex && rangeindex < len(in) && keys(res) == elems(in, rangeindex+1)
+//@
+//@ func UIntsToUniversalIDs
+//@   props C02 C03 C06 C12
+//@   modifies nothing
+//@   ensures [copy] len(result) == len(in) && forall i int :: 0 <= i && i < len(in) ==> uint16(result[i]) == in[i]
+//@   loop 0: invariant len(res) == len(in) && forall i int :: 0 <= i && i <= rangeindex ==> uint16(res[i]) == in[i]
+//@
+//@ func (*Scheme).prepareSigning
+//@   props C02 C03 C12
+//@   requires membership != nil
+//@   on-call s.RBF(bc, fw, cnt):
+//@     assert [session-size] cnt == len(signers)
+//@   at store complit.allowedList:
+//@     assert [participants] keys(value$) == elems(signers, len(signers))
+//@
+//@ // len(members) == n is what the synchroniser guarantees for the list it hands to its continuation (C07)
+//@ func (*Scheme).runDKG$1
+//@   props C02 C03 C12
+//@   requires s != nil && membership != nil && dkgProtocolInstance != nil && len(members) == n
+//@   on-call s.RBF(bc, fw, cnt):
+//@     assert [session-size] cnt == len(members)
+//@   at store complit.allowedList:
+//@     assert [participants] keys(value$) == elems(universalIds, len(universalIds)) && len(universalIds) == len(members)
+
+//@ func membershipSyncTopicName
+//@   props C13
+//@   on-call h.Write(b):
+//@     assert [member-bytes] len(b) == 2 && b[0] == byte(member) && b[1] == byte(member >> 8)
